@@ -40,6 +40,7 @@ func init() {
 		Run: func(c *Ctx) {
 			s := newSeqRT(c)
 			c.guard("SEQ.STACK.HEIGHT", s.ruleStack)
+			c.guard("SEQ.STACK.HEIGHT", s.ruleStackNested)
 			c.guard("SEQ.STACK.REC", s.ruleNoStaticRecursion)
 		},
 	})
